@@ -38,6 +38,12 @@ def setup(b):
         st.emit('cache_store', path=args[0], data=args[1])
         yield st, None
 
+    def delete_cached(interp, st, args, kwargs):
+        # the cache primitive that drops an entry (its own contract: C18.cache._delete_cached): no result.  Like _store_cached it is
+        # modelled without operating-system faults: the property quantifies over cache STATES, not over faults of the cache directory
+        st.emit('cache_delete', path=args[0])
+        yield st, None
+
     def download(interp, st, args, kwargs):
         fail = st.copy()
         fail.emit('download_failed')
@@ -55,6 +61,7 @@ def setup(b):
     me._attrs.update({
         '_get_cached': Model('_get_cached', get_cached),
         '_store_cached': Model('_store_cached', store_cached),
+        '_delete_cached': Model('_delete_cached', delete_cached),
         '_download_threadsafe': Model('_download_threadsafe', download),
         '_decrypt_snapshot_body': Model('_decrypt_snapshot_body', decrypt_body),
     })
@@ -77,13 +84,17 @@ def post(res):
         for e in decs:
             res.oblige(p.pc_at(e), f'load.verified#{i}', Hf(sym.lift(e.data['data'], BYTES).z) == b.d.z,
                        meta={'path_events': [x.kind for x in p.st.events]})
-        if p.kind == 'return':
+        if p.kind in ('return', 'normal'):          # 'normal': the body ran off its end (an implicit `return None`)
             ok = [e for e in decs if e.data['ok']]
             if len(ok) != 1:
                 res.oblige(p, f'load.one_decode#{i}', z3.BoolVal(False))
                 continue
             x = sym.lift(ok[0].data['data'], BYTES).z
             # transparent: the returned body is decode(x) with H(x) == d
+            if not (isinstance(p.value, SV) and p.value.ty == BODY):
+                # a return path that hands back something that is not a decoded body at all (None: "skip this snapshot")
+                res.oblige(p, f'load.result_is_decoded_verified_bytes#{i}', z3.BoolVal(False))
+                continue
             res.oblige(p, f'load.result_is_decoded_verified_bytes#{i}',
                        z3.And(p.value.z == b.decode(x), Hf(x) == b.d.z))
         if p.kind == 'raise':
